@@ -1,13 +1,15 @@
 (* Model of the file-level methods of sharded_file_accessor.ShardedFileAccessor
    exactly as coded:
      __init__    : base_dir.mkdir(exist_ok=True, parents=True)   (even for reading)
-     file_exists : (base_dir / relative_path).exists()           (true for directories too)
-     fetch_file  : open(base_dir / relative_path, "rb").read()   (no ".gz" fallback)
+     _file_path  : base_dir / Path(relative_path); ValueError when that is not
+                   below base_dir or mentions ".." (outcome Refused, raised
+                   before any file-system primitive); the empty name is
+                   accepted and denotes the dataset directory itself
+     file_exists : _file_path(...).exists()                      (true for directories too)
+     fetch_file  : open(_file_path(...), "rb").read()            (no ".gz" fallback)
      store_file  : if not overwrite and exists: raise OSError; open(..., "wb").write(buf)
                    (no parent creation, MIME type ignored)
-   There is NO path confinement: the name goes through the pathlib join only
-   (absolute names replace the base, ".." is resolved by the kernel).
-   Errors are plain OSError (outcome IOErr), never DataAccessError. *)
+   I/O errors are plain OSError (outcome IOErr), never DataAccessError. *)
 From Coq Require Import NArith ZArith List Bool Lia.
 From NGS Require Import Val Ints StFS StFileAccessor.
 Import ListNotations.
@@ -21,12 +23,20 @@ Notation prog := (prog B).
 Definition sh_ctor (b : path) : prog (outcome (resval B)) :=
   Do (CMakedirs b) (fun r => match r with RErr _ => Ret IOErr | _ => Ret (Ok VUnit) end).
 
+Definition sh_path (b : path) (name : list N) : option path := checked_path_gen false b name.
+
 Definition sh_file_exists (b : path) (name : list N) : prog (outcome (resval B)) :=
-  Do (CExists (unchecked_path b name)) (fun r =>
-    match r with RBool x => Ret (Ok (VBool x)) | RErr _ => Ret IOErr | _ => Ret (Ok (VBool false)) end).
+  match sh_path b name with
+  | None => Ret Refused
+  | Some p =>
+  Do (CExists p) (fun r =>
+    match r with RBool x => Ret (Ok (VBool x)) | RErr _ => Ret IOErr | _ => Ret (Ok (VBool false)) end)
+  end.
 
 Definition sh_fetch_file (b : path) (name : list N) : prog (outcome (resval B)) :=
-  let p := unchecked_path b name in
+  match sh_path b name with
+  | None => Ret Refused
+  | Some p =>
   Do (COpen p MR) (fun r =>
   match r with
   | RErr _ => Ret IOErr
@@ -35,7 +45,8 @@ Definition sh_fetch_file (b : path) (name : list N) : prog (outcome (resval B)) 
          | RData d => Do (CClose p) (fun r => match r with RErr _ => Ret IOErr | _ => Ret (Ok (VData d)) end)
          | _ => Do (CClose p) (fun _ => Ret IOErr)
          end)
-  end).
+  end)
+  end.
 
 Definition sh_write (p : path) (buf : list N) : prog (outcome (resval B)) :=
   Do (COpen p MW) (fun r =>
@@ -49,14 +60,17 @@ Definition sh_write (p : path) (buf : list N) : prog (outcome (resval B)) :=
   end).
 
 Definition sh_store_file (b : path) (name buf : list N) (ow : bool) : prog (outcome (resval B)) :=
-  let p := unchecked_path b name in
+  match sh_path b name with
+  | None => Ret Refused
+  | Some p =>
   if ow then sh_write p buf
   else Do (CExists p) (fun r =>
        match r with
        | RBool true => Ret IOErr           (* OSError("file at ... already exists") *)
        | RErr _ => Ret IOErr
        | _ => sh_write p buf
-       end).
+       end)
+  end.
 
 (* file-level operations only; chunk operations belong to the shard writer /
    reader models (Shard/*.v) *)
